@@ -201,10 +201,7 @@ macro_rules! bodies {
             /// Uncapped branch (market pools zero, so the trader cap never binds): pnl == uncapped pnl ==
             /// sign(total) * floor(closed_tokens * |total| / tokens) with total = +-(tokens*price - size),
             /// the price picked against the trader (min for longs, max for shorts).
-            pub fn pnl_uncapped_exact() {
-                pnl_uncapped_exact_mode(0)
-            }
-            pub fn pnl_uncapped_exact_mode(mode: u8) {
+            pub fn pnl_uncapped_exact(explain_failure: bool) {
                 let pos = any_position(pnl_market(false));
                 let prices: Prices<T> = any_prices(false);
                 let delta: T = kani::any();
@@ -216,30 +213,19 @@ macro_rules! bodies {
                     assert!(value <= SMAX as R && size <= SMAX as R, "C11: pnl computed although the position value does not fit the signed type");
                     let total: RS = if pos.is_long { value as RS - size as RS } else { size as RS - value as RS };
                     assert!(*pnl == *uncapped, "C11: pnl differs from the uncapped pnl although the trader cap cannot bind");
-                    // closed tokens: all on a full close, else ceil (long) / floor (short) of tokens*delta/size
-                    if mode == 2 {
-                    } else if mode == 4 {
-                        let again = pos.size_delta_in_tokens(&delta);
-                        assert!(again.as_ref().map_or(false, |c| *c == *closed), "C11: reported closed tokens differ from size_delta_in_tokens");
-                        core::mem::forget(again);
-                    } else if u(delta) == size {
+                    // closed tokens (the rounding of a partial close is decided by c11_size_delta_in_tokens_*)
+                    if u(delta) == size {
                         assert!(u(*closed) == tokens, "C11: a full close does not close every token");
-                    } else if pos.is_long {
-                        assert!(is_ceil_div(u(*closed), tokens * u(delta), size), "C11: closed tokens of a long are not ceil(tokens*delta/size)");
-                    } else {
-                        assert!(is_floor_div(u(*closed), tokens * u(delta), size), "C11: closed tokens of a short are not floor(tokens*delta/size)");
                     }
                     let tm = total.unsigned_abs() as R;
-                    if mode != 1 {
-                        assert!(is_floor_div(pnl.unsigned_abs() as R, u(*closed) * tm, tokens), "C11: |pnl| is not floor(closed_tokens * |total pnl| / tokens)");
-                    }
+                    assert!(is_floor_div(pnl.unsigned_abs() as R, u(*closed) * tm, tokens), "C11: |pnl| is not floor(closed_tokens * |total pnl| / tokens)");
                     assert!(*pnl == 0 || (*pnl > 0) == (total > 0), "C11: pnl has the wrong sign");
                     kani::cover!(pos.is_long && *pnl > 1 && u(*closed) < tokens, "long profit, partial close");
                     kani::cover!(pos.is_long && *pnl < -1, "long loss");
                     kani::cover!(!pos.is_long && *pnl > 1, "short profit");
                     kani::cover!(!pos.is_long && *pnl < -1 && u(*closed) < tokens, "short loss, partial close");
                     kani::cover!(u(prices.index_token_price.min) < u(prices.index_token_price.max) && *pnl != 0, "spread");
-                } else if mode == 0 || mode == 3 {
+                } else if explain_failure {
                     // failure only from representability: position value, closed tokens, or the scaled pnl
                     let p = tokens * u(delta);
                     let closed_fails = u(delta) != size && (size == 0 || (pos.is_long && p > TMAX * size) || (!pos.is_long && p >= (TMAX + 1) * size));
@@ -355,10 +341,10 @@ macro_rules! bodies {
 
             /// Monotonicity in the index price: the uncapped pnl always; the credited pnl whenever the
             /// trader cap does not bind (then it equals the uncapped pnl).
-            pub fn pnl_monotone(symbolic_pools: bool) {
+            pub fn pnl_monotone(symbolic_pools: bool, full_close: bool) {
                 let pos = any_position(pnl_market(symbolic_pools));
                 let (p1, p2) = two_index_prices();
-                let size_delta: T = kani::any();
+                let size_delta: T = if full_close { pos.size_in_usd } else { kani::any() };
                 let r1 = pos.pnl_value(&p1, &size_delta);
                 let r2 = pos.pnl_value(&p2, &size_delta);
                 if let (Ok((pnl1, unc1, t1)), Ok((pnl2, unc2, t2))) = (&r1, &r2) {
@@ -447,7 +433,6 @@ macro_rules! bodies {
 }
 bodies!(w8, u8, i8, u32, i32, 1);
 bodies!(w16, u16, i16, u32, i32, 2);
-bodies!(w8n, u8, i8, u16, i16, 1);
 
 //@ prop=C11 tier=quick kind=hold
 //@ enc=MarketUtils::cap_pnl (via verif_cap_pnl hook), utils::apply_factor, Unsigned::to_signed
@@ -460,9 +445,18 @@ fn c11_cap_pnl_exact_u16() {
 
 //@ prop=C11 tier=quick kind=hold
 //@ enc=PositionExt::size_delta_in_tokens
+//@ bound=width-reduced T=u8: every u8 position size (usd, tokens), size delta, both sides
+//@ stubs=position environment = plain-struct VPosition
+#[kani::proof]
+fn c11_size_delta_in_tokens_u8() {
+    w8::size_delta_in_tokens();
+}
+
+//@ prop=C11 tier=thorough kind=hold
+//@ enc=PositionExt::size_delta_in_tokens
 //@ bound=width-reduced T=u16: every u16 position size (usd, tokens), size delta, both sides
 //@ stubs=position environment = plain-struct VPosition
-//@ timeout=1800
+//@ timeout=5400 mem=30
 #[kani::proof]
 fn c11_size_delta_in_tokens_u16() {
     w16::size_delta_in_tokens();
@@ -470,12 +464,12 @@ fn c11_size_delta_in_tokens_u16() {
 
 //@ prop=C11 tier=quick kind=hold
 //@ enc=PositionExt::{pnl_value,size_delta_in_tokens}, Price::pick_price_for_pnl, BaseMarketExt::{pnl,pool_value_without_pnl_for_one_side}, MarketUtils::cap_pnl, MulDiv::checked_mul_div_with_signed_numerator
-//@ bound=width-reduced T=u8, DECIMALS=1 (UNIT 10): every u8 position size (usd, tokens), both sides, every u8 index price pair (validity not assumed) and size delta; market pools zero (trader cap cannot bind)
+//@ bound=width-reduced T=u8, DECIMALS=1 (UNIT 10): every u8 position size (usd, tokens), both sides, every u8 index price pair (validity not assumed) and size delta; market pools zero (trader cap cannot bind); decided: pnl == uncapped pnl == sign(total)*floor(closed_tokens*|total|/tokens), total = +-(tokens*price_against_trader - size), i.e. a partial close realises the proportional share of the full-close pnl rounded towards zero; failure only from representability
 //@ stubs=market/position environment = plain-struct VMarket/VPosition
 //@ timeout=1800
 #[kani::proof]
 fn c11_pnl_uncapped_exact_u8() {
-    w8::pnl_uncapped_exact();
+    w8::pnl_uncapped_exact(true);
 }
 
 //@ prop=C11 tier=quick kind=hold
@@ -488,24 +482,34 @@ fn c11_full_close_capped_exact_u8() {
     w8::full_close_capped_exact();
 }
 
-//@ prop=C11 tier=quick kind=hold
+//@ prop=C11 tier=thorough kind=hold
 //@ enc=PositionExt::pnl_value, BaseMarketExt::pnl, MarketUtils::cap_pnl
 //@ bound=width-reduced T=u8, DECIMALS=1: any close size; every u8 position, price, pool and trader pnl factor
 //@ stubs=market/position environment = plain-struct VMarket/VPosition
-//@ timeout=1800
+//@ timeout=5400 mem=30
 #[kani::proof]
 fn c11_pnl_le_uncapped_u8() {
     w8::pnl_le_uncapped();
 }
 
 //@ prop=C11 tier=quick kind=hold
-//@ enc=PositionExt::pnl_value, Price::pick_price_for_pnl
-//@ bound=width-reduced T=u8, DECIMALS=1: every u8 position and size delta; two index price pairs p1 <= p2 (both ends ordered); market pools zero (uncapped branch); both evaluations must succeed
+//@ enc=PositionExt::pnl_value, Price::pick_price_for_pnl, BaseMarketExt::pnl, MarketUtils::cap_pnl
+//@ bound=width-reduced T=u8, DECIMALS=1: full close; every u8 position, liquidity / open-interest pool and trader pnl factor; two index price pairs p1 <= p2 (both ends ordered), other prices equal; both evaluations must succeed
 //@ stubs=market/position environment = plain-struct VMarket/VPosition; by-design exclusion: the credited (capped) pnl is asserted monotone only where the trader cap does not bind, see c11_capped_pnl_monotone_u8
 //@ timeout=1800
 #[kani::proof]
+fn c11_pnl_monotone_full_close_u8() {
+    w8::pnl_monotone(true, true);
+}
+
+//@ prop=C11 tier=thorough kind=hold
+//@ enc=PositionExt::pnl_value, Price::pick_price_for_pnl
+//@ bound=width-reduced T=u8, DECIMALS=1: any close size; every u8 position; two ordered index price pairs; market pools zero (uncapped branch)
+//@ stubs=market/position environment = plain-struct VMarket/VPosition
+//@ timeout=5400 mem=30
+#[kani::proof]
 fn c11_pnl_monotone_uncapped_u8() {
-    w8::pnl_monotone(false);
+    w8::pnl_monotone(false, false);
 }
 
 //@ prop=C11 tier=quick kind=finding:c11_capped_pnl_not_monotone
@@ -525,7 +529,7 @@ fn c11_capped_pnl_monotone_u8() {
 //@ timeout=5400 mem=30
 #[kani::proof]
 fn c11_pnl_monotone_in_index_price_u8() {
-    w8::pnl_monotone(true);
+    w8::pnl_monotone(true, false);
 }
 
 //@ prop=C11 tier=thorough kind=hold
@@ -555,7 +559,7 @@ fn c11_pnl_value_exact_ref_u8() {
 //@ timeout=5400 mem=30
 #[kani::proof]
 fn c11_pnl_uncapped_exact_u16() {
-    w16::pnl_uncapped_exact();
+    w16::pnl_uncapped_exact(true);
 }
 
 //@ prop=C11 tier=thorough kind=hold
@@ -565,22 +569,6 @@ fn c11_pnl_uncapped_exact_u16() {
 //@ timeout=5400 mem=30
 #[kani::proof]
 fn c11_pnl_monotone_uncapped_u16() {
-    w16::pnl_monotone(false);
+    w16::pnl_monotone(false, false);
 }
 
-#[kani::proof]
-fn probe_c11_sdt_u8() {
-    w8n::size_delta_in_tokens();
-}
-#[kani::proof]
-fn probe_c11_unc_m4() {
-    w8::pnl_uncapped_exact_mode(4);
-}
-#[kani::proof]
-fn probe_c11_unc_m2() {
-    w8::pnl_uncapped_exact_mode(2);
-}
-#[kani::proof]
-fn probe_c11_unc_m3() {
-    w8::pnl_uncapped_exact_mode(3);
-}
